@@ -139,8 +139,17 @@ func c11Slots() []c11Slot {
 		exprSlot("user call argument", true, func(e Expr) Expr { return CallE(V("idf"), e) }),
 		exprSlot("native call argument", true, func(e Expr) Expr { return CallE(V("num"), e) }),
 		exprSlot("callee", true, func(e Expr) Expr { return Bin("+", N("1"), N("1")) }), // replaced below
-		exprSlot("array literal element", true, func(e Expr) Expr { return Arr_(N("1"), e, N("3")) }),
-		exprSlot("object literal element", true, func(e Expr) Expr { return &ObjLit{Keys: []string{"a", "b"}, Vals: []Expr{N("1"), e}} }),
+		exprSlot("array literal element", true, func(e Expr) Expr { return Arr_(CallE(V("tr")), e, CallE(V("tr"))) }),
+		exprSlot("object literal element", true, func(e Expr) Expr {
+			return &ObjLit{Keys: []string{"a", "b", "c"}, Vals: []Expr{CallE(V("tr")), e, CallE(V("tr"))}}
+		}),
+		exprSlot("middle call argument", true, func(e Expr) Expr { return CallE(V("idf"), Arr_(CallE(V("tr")), e, CallE(V("tr")))) }),
+		exprSlot("left of a traced operand", true, func(e Expr) Expr { return Bin("+", e, CallE(V("tr"))) }),
+		exprSlot("right of a traced operand", true, func(e Expr) Expr { return Bin("+", CallE(V("tr")), e) }),
+		stmtSlot("print argument between traced ones", true, func(e func() Expr) Stmt { return Pr(CallE(V("tr")), e(), CallE(V("tr"))) }),
+		stmtSlot("store target after a traced right side", true, func(e func() Expr) Stmt {
+			return Ex(Asg("=", Idx(V("objv"), Bin("+", S("k"), e())), CallE(V("tr"))))
+		}),
 		exprSlot("member base", true, func(e Expr) Expr { return Mem(&Paren{e}, "zz") }),
 		exprSlot("index expression", true, func(e Expr) Expr { return Idx(V("objv"), Bin("+", S("k"), e)) }),
 		stmtSlot("if condition", true, func(e func() Expr) Stmt { return &If{Cond: e(), Then: Pr(S("then")), Else: Pr(S("else"))} }),
